@@ -99,12 +99,13 @@ def build_harness(name, extra_flags=(), sources=None, link=(), compiler="g++", d
                 os.remove(os.path.join(BUILD, f))
             except OSError:
                 pass
-    cmd = [compiler] + flags + ["-I" + os.path.join(REPO, "src"), "-I" + hdir] + ["-I" + os.path.join(hdir, i) for i in includes] + srcs + ["-o", out + ".tmp"] + list(link)
+    tmp = "%s.%d.tmp" % (out, os.getpid())      # several checks may build the same harness at the same time
+    cmd = [compiler] + flags + ["-I" + os.path.join(REPO, "src"), "-I" + hdir] + ["-I" + os.path.join(hdir, i) for i in includes] + srcs + ["-o", tmp] + list(link)
     t0 = time.time()
     p = subprocess.run(cmd, capture_output=True, text=True)
     if p.returncode != 0:
         return None, p.stderr[-4000:]
-    os.replace(out + ".tmp", out)
+    os.replace(tmp, out)
     return out, None
 
 
